@@ -17,6 +17,7 @@ import RbV.Gen.SaisWidth
 import RbV.Thm.GenSrcSus
 import RbV.Thm.GenSrcLcp
 import RbV.Thm.GenSrcTransform
+import RbV.Thm.GenSrcPosTypes
 /-!
 # C03 — suffix array = sorted permutation of all suffixes; LCP; shortest unique substrings
 
@@ -681,5 +682,37 @@ example : Transform.Ok [65, 36, 67, 36, 65, 36] [3, 1, 4, 2, 3, 0] := Transform.
 example : Gen.SrcTransform.sentinel_count [36, 65] = Rs.Res.panic := by decide
 example : Gen.SrcTransform.transform_text (fun x => if x < 2 then some x else none) [65, 67, 36] (Alpha.mk [65, 67, 36]) 1
     = Rs.Res.panic := by decide
+
+/-! ### translated text of `PosTypes::{new, is_s_pos, is_l_pos, is_lms_pos}` (`RbV/Gen/SrcPosTypes.lean`; builder gensa)
+
+The `BitVec` is read as the vector of its bits (`new_fill`, `set_bit`, `get_bit` with bounds checks), `T` at `u64`. -/
+
+/-- translated `PosTypes::new` = the mirror model `PosTypes.posTypes` (the L/S typing SA-IS's model and proofs use) on every
+non-empty text: the right-to-left loop never reads or writes out of range -/
+theorem postypes_new_source_eq_model (t : List Nat) (hne : t ≠ []) (hsz : t.length < 2 ^ 64) :
+    Gen.SrcPosTypes.new t = Rs.Res.ok (PosTypes.posTypes t) :=
+  Thm.GenSrcPosTypes.new_eq_model t hne hsz
+
+/-- **translated `PosTypes::new` is correct**: in a text whose last symbol occurs nowhere else the translated function
+marks a position S exactly when its suffix is smaller than the next one (composition with `sais_postypes_partial`) -/
+theorem postypes_new_source_correct (t : List Nat) (hne : t ≠ []) (hsz : t.length < 2 ^ 64)
+    (hu : ∀ i, i + 1 < t.length → t.getD i 0 ≠ t.getD (t.length - 1) 0) :
+    ∃ ty, Gen.SrcPosTypes.new t = Rs.Res.ok ty ∧ ∀ p, p < t.length →
+      ty[p]? = some (decide (lexLt (t.drop p) (t.drop (p + 1))) || decide (p + 1 = t.length)) :=
+  ⟨_, Thm.GenSrcPosTypes.new_eq_model t hne hsz, fun p hp => PosTypes.posTypes_spec t hu p hp⟩
+
+/-- translated `is_s_pos`, `is_l_pos`, `is_lms_pos` = the model's predicates at every position of the bit vector (beyond it
+the bv crate panics; the model's totalised predicates say `false`) -/
+theorem postypes_predicates_source_eq_model (ty : List Bool) (p : Nat) (hp : p < ty.length) :
+    Gen.SrcPosTypes.is_s_pos ty p = Rs.Res.ok (Sais.isS ty p) ∧ Gen.SrcPosTypes.is_l_pos ty p = Rs.Res.ok (Sais.isL ty p) ∧
+      Gen.SrcPosTypes.is_lms_pos ty p = Rs.Res.ok (Sais.isLms ty p) :=
+  ⟨Thm.GenSrcPosTypes.is_s_pos_eq_model ty p hp, Thm.GenSrcPosTypes.is_l_pos_eq_model ty p hp,
+    Thm.GenSrcPosTypes.is_lms_pos_eq_model ty p hp⟩
+
+-- the text of the repo's `test_pos_types` through the translated code: its LMS positions
+example : (do let ty ← Gen.SrcPosTypes.new [71, 67, 67, 84, 84, 65, 65, 67, 65, 84, 84, 65, 84, 84, 65, 67, 71, 67, 67, 84, 65, 36]
+              (List.range 22).filterM (Gen.SrcPosTypes.is_lms_pos ty)) = Rs.Res.ok [1, 5, 8, 11, 14, 17, 21] := by decide
+example : Gen.SrcPosTypes.new [] = Rs.Res.panic := by decide
+example : Gen.SrcPosTypes.is_lms_pos [false, true] 2 = Rs.Res.panic := by decide
 
 end RbV.Thm.C03
